@@ -80,6 +80,28 @@ class Unsupported(Exception):
     pass
 
 
+class NeedChoice(Exception):
+    """an undecidable test was met and no outcome was supplied for it"""
+
+
+def run_all_choices(make_eval, body, max_tests=4):
+    """run `body` for every outcome vector of the tests the evaluator cannot decide;
+    returns the list of results (one per explored path)"""
+    results = []
+    pending = [[]]
+    while pending:
+        ch = pending.pop()
+        ev = make_eval(ch)
+        try:
+            results.append((tuple(ch), ev.run(body)))
+        except NeedChoice:
+            if len(ch) >= max_tests:
+                raise Unsupported("too many undecidable tests")
+            pending.append(ch + [True])
+            pending.append(ch + [False])
+    return results
+
+
 class MiniEval:
     """Evaluate a method body over a finite domain.  `atoms(expr)` maps *atomic*
     sub-expressions (child calls) to values by a callback; everything else must be built
@@ -88,9 +110,18 @@ class MiniEval:
 
     PASS_THROUGH = {"sympify", "bool", "int", "Integer", "S", "ssympify"}
 
-    def __init__(self, atom_cb):
+    def __init__(self, atom_cb, choices=None):
         self.atom_cb = atom_cb
         self.env: Dict[str, object] = {}
+        self.choices = list(choices or [])
+        self.used_choices = 0
+
+    def _choose(self):
+        i = self.used_choices
+        self.used_choices += 1
+        if i < len(self.choices):
+            return self.choices[i]
+        raise NeedChoice()
 
     def run(self, body) -> object:
         r = self._block(body)
@@ -109,7 +140,10 @@ class MiniEval:
         if isinstance(st, ast.Return):
             return self.ev(st.value) if st.value is not None else None
         if isinstance(st, ast.Assign) and len(st.targets) == 1 and isinstance(st.targets[0], ast.Name):
-            self.env[st.targets[0].id] = self.ev(st.value)
+            try:
+                self.env[st.targets[0].id] = self.ev(st.value)
+            except Unsupported:
+                self.env[st.targets[0].id] = _OPAQUE  # using it later is unsupported (a test on it becomes a choice)
             return _NORET
         if isinstance(st, ast.AugAssign) and isinstance(st.target, ast.Name):
             cur = self.env.get(st.target.id, _MISSING)
@@ -118,7 +152,12 @@ class MiniEval:
             self.env[st.target.id] = self._binop(st.op, cur, self.ev(st.value))
             return _NORET
         if isinstance(st, ast.If):
-            t = self.ev(st.test)
+            try:
+                t = self.ev(st.test)
+            except Unsupported:
+                # a test the evaluator cannot decide (e.g. a shape test on the children): both outcomes
+                # are explored by the caller through `choices`
+                t = self._choose()
             return self._block(st.body if t else st.orelse)
         if isinstance(st, ast.Expr) and isinstance(st.value, ast.Constant):
             return _NORET
@@ -134,6 +173,8 @@ class MiniEval:
             return e.value
         if isinstance(e, ast.Name):
             if e.id in self.env:
+                if self.env[e.id] is _OPAQUE:
+                    raise Unsupported(f"opaque value {e.id}")
                 return self.env[e.id]
             if e.id in ("True", "False"):
                 return e.id == "True"
@@ -227,6 +268,7 @@ class _Sentinel:
 
 
 _NORET = _Sentinel("NORET")
+_OPAQUE = _Sentinel("OPAQUE")
 _MISSING = _Sentinel("MISSING")
 MISSING = _MISSING
 
